@@ -33,7 +33,9 @@ namespace {
 enum Hook { K_INIT = 0, K_START, K_STOP, K_CLEANUP };
 static const char *HN[] = {"onInit", "onStart", "onStop", "onCleanup"};
 
-// ops:  node <parent (-1 root)> <required> <named> <fail_init> <fail_start>      (node 0 is the root; parents precede children)
+// ops:  node <parent (-1 root)> <required> <named> <fail_init> <fail_start> <how (0 add, 1 addAs with its own name, 2 addAs with a new name)>
+//       readd <child> <other parent>     one more add() of a module that already has a parent (must be refused: the structure stays a tree)
+//       (node 0 is the root; parents precede children)
 //       call <0 initialize,1 start,2 stop,3 cleanup>                              (part 0 only)
 void generate(sim::Rng &r, uint64_t seed, const std::string &tier, sim::Plan &p) {
   bool thorough = tier == "thorough";
@@ -48,9 +50,10 @@ void generate(sim::Rng &r, uint64_t seed, const std::string &tier, sim::Plan &p)
     long parent = -1;
     if (i > 0) { do { parent = (long)r.below((uint64_t)i); } while (depth[(size_t)parent] >= 3); }
     depth.push_back(i == 0 ? 0 : depth[(size_t)parent] + 1);
-    op.a = {parent, r.chance(650) ? 1 : 0, r.chance(700) ? 1 : 0, (i > 0 || r.chance(300)) && r.chance(fail_rate) ? 1 : 0, r.chance(fail_rate) ? 1 : 0};
+    op.a = {parent, r.chance(650) ? 1 : 0, r.chance(700) ? 1 : 0, (i > 0 || r.chance(300)) && r.chance(fail_rate) ? 1 : 0, r.chance(fail_rate) ? 1 : 0, r.chance(700) ? 0 : r.range(1, 2)};
     p.ops.push_back(op);
   }
+  if (n >= 3 && r.chance(200)) { sim::Op op; op.kind = "readd"; op.a = {r.range(1, n - 1), (long)r.below((uint64_t)n)}; p.ops.push_back(op); }
   if (part == 0) {
     int nc = (int)r.range(1, 10);
     // mostly the natural order, sometimes repeated / out of order calls
@@ -69,7 +72,8 @@ void generate(sim::Rng &r, uint64_t seed, const std::string &tier, sim::Plan &p)
 struct Ev { int hook; int node; bool ok; int tid; bool loop_running; };
 std::vector<Ev> g_trace;
 
-struct NodeSpec { int parent = -1; bool required = true, named = true, fail_init = false, fail_start = false; std::vector<int> children; };
+struct NodeSpec { int parent = -1; bool required = true, named = true, fail_init = false, fail_start = false; int how = 0; std::vector<int> children; };
+std::vector<std::pair<int, int>> g_readd;
 std::vector<NodeSpec> g_spec;
 
 // Main()/Start() mode
@@ -199,12 +203,13 @@ struct Oracle {
 };
 
 void load_spec(const sim::Plan &plan) {
-  g_spec.clear(); g_trace.clear();
+  g_spec.clear(); g_trace.clear(); g_readd.clear();
+  for (const sim::Op &op : plan.ops) if (op.kind == "readd") g_readd.push_back({(int)op.arg(0), (int)op.arg(1)});
   for (const sim::Op &op : plan.ops) {
     if (op.kind != "node" || g_spec.size() >= 16) continue;
     NodeSpec s; int id = (int)g_spec.size();
     s.parent = id == 0 ? -1 : (int)(((op.arg(0) % id) + id) % id);
-    s.required = op.arg(1) != 0; s.named = op.arg(2) != 0; s.fail_init = op.arg(3) != 0; s.fail_start = op.arg(4) != 0;
+    s.required = op.arg(1) != 0; s.named = op.arg(2) != 0; s.fail_init = op.arg(3) != 0; s.fail_start = op.arg(4) != 0; s.how = (int)(((op.arg(5) % 3) + 3) % 3);
     g_spec.push_back(s);
     if (id > 0) g_spec[(size_t)s.parent].children.push_back(id);
   }
@@ -219,7 +224,23 @@ Probe *build_tree(Context &ctx, bool root_named) {
   std::vector<Probe *> mods(g_spec.size());
   for (size_t i = 0; i < g_spec.size(); ++i) mods[i] = new Probe((int)i, ((i == 0 && !root_named) || (i > 0 && !g_spec[i].named)) ? "" : "m" + std::to_string(i), ctx);
   for (size_t i = 1; i < g_spec.size(); ++i) {
-    if (!mods[(size_t)g_spec[i].parent]->add(mods[i], g_spec[i].required)) { sim::violation("C11/add-rejected", "add() rejected a child with a unique name"); break; }
+    Probe *par = mods[(size_t)g_spec[i].parent];
+    bool ok;
+    if (g_spec[i].how == 0) ok = par->add(mods[i], g_spec[i].required);
+    else if (g_spec[i].how == 1) ok = par->addAs(mods[i], mods[i]->name(), g_spec[i].required);
+    else ok = par->addAs(mods[i], "r" + std::to_string(i), g_spec[i].required);
+    if (!ok) { sim::violation("C11/add-rejected", "add()/addAs() rejected a child with a unique name"); break; }
+  }
+  // a module that already has a parent is offered to another module: whatever add() answers, the hooks must stay those of a tree
+  for (auto &ra : g_readd) {
+    int c = ra.first, q = ra.second, n = (int)g_spec.size();
+    if (n < 3) break;
+    c = 1 + (((c - 1) % (n - 1)) + (n - 1)) % (n - 1); q = ((q % n) + n) % n;
+    bool bad = q == c || q == g_spec[(size_t)c].parent;
+    for (int a = q; a >= 0 && !bad; a = g_spec[(size_t)a].parent) if (a == c) bad = true;      // no cycles
+    if (bad) continue;
+    bool accepted = mods[(size_t)q]->add(mods[(size_t)c], true);
+    sim::probe(accepted ? "second_parent_accepted" : "second_parent_refused");
   }
   return mods[0];
 }
